@@ -23,6 +23,23 @@ Qed.
 Example some_views : existsb (fun s => match as_kind s with ANoCopy => true | _ => false end) alias_sites = true.
 Proof. vm_compute. reflexivity. Qed.
 
+(* ---- package-level variables: nothing mutable is shared between the instances of a process ---- *)
+Definition gvar_ok (g : gvar) : bool := match gv_class g with GShared => false | _ => true end.
+
+(* every package-level variable is an error value, a read-only table, an unassigned scalar, or the sync.Pool wrapper
+   (whose exclusive hand-out is sync.Pool's contract): regenerated from the source on every run *)
+Theorem no_shared_globals : forallb gvar_ok global_vars = true.
+Proof. vm_compute. reflexivity. Qed.
+
+Theorem no_shared_globals_forall : forall g, In g global_vars -> gv_class g <> GShared.
+Proof.
+  intros g Hin. pose proof no_shared_globals as H. rewrite forallb_forall in H. specialize (H g Hin).
+  unfold gvar_ok in H. destruct (gv_class g); discriminate.
+Qed.
+
+Example some_globals : existsb (fun g => match gv_class g with GPool => true | _ => false end) global_vars = true.
+Proof. vm_compute. reflexivity. Qed.
+
 (* ---- two instances, calls interleaved in any order: each sees what it sees alone ---- *)
 
 Inductive who := InstA | InstB.
